@@ -299,8 +299,10 @@ def _dispatch(U, name, a):
         U.childlist(n, via).move(ts[0] if len(ts) == 1 else ts, **kw)
         return None
     if name == "ChRemoveAll":
-        lst = U.childlist(n, via)
-        if a["key"] == 0:
+        lst = U.wbs_of(n) if via == 2 else U.childlist(n, via)      # via 2: WBS.remove_all (all members are candidates)
+        if a["key"] == 4:
+            lst.remove_all(lambda t: t.mix > 0)                     # cannot be evaluated where mix is None
+        elif a["key"] == 0:
             lst.remove_all()
         elif a["rev"]:
             lst.remove_all(lambda t, k=a["key"] - 1: getattr(t, "prio", None) == k)
@@ -443,6 +445,10 @@ def alphabet(N, W, L=2, ids=None, level=2, light=False):
             A.append(act("ChRemoveAll", n=n, key=0))
             A.append(act("ChRemoveAll", n=n, key=2))            # remove_all(prio=1)
             A.append(act("ChRemoveAll", n=n, key=2, rev=1))     # ... with a callable
+            A.append(act("ChRemoveAll", n=n, key=4))            # ... with a callable that raises for some tasks
+            if n > N:
+                for key in (0, 2, 4):
+                    A.append(act("ChRemoveAll", n=n, key=key, via=2))
             idset = sorted(set(ids or [])) + [99]
             for k in range(0, 2 if light else 3):
                 for s in itertools.product(idset, repeat=k):
